@@ -179,32 +179,19 @@ structure Data where
 /-- registers and labels of the wait-all loop, allocated in the builder's order -/
 def allocWaitAll (act : List Nat) (used : List String) :
     Option (Nat × Nat × Nat × Nat × Nat × LoopLabels) :=
-  match getInactive act with
-  | none => none
-  | some q => match getInactive (q :: act) with
-    | none => none
-    | some b => match getInactive (b :: q :: act) with
-      | none => none
-      | some L => match getInactive (L :: b :: q :: act) with
-        | none => none
-        | some I => match getInactive (I :: L :: b :: q :: act) with
-          | none => none
-          | some J =>
-            match newLabel used "LOOP" with
-            | none => none
-            | some (l1, u1) => match newLabel u1 "LOOP_EXIT" with
-              | none => none
-              | some (l2, u2) => match newLabel u2 "IF_EXIT" with
-                | none => none
-                | some (x1, u3) => match newLabel u3 "IF_EXIT" with
-                  | none => none
-                  | some (x2, u4) => match newLabel u4 "IF_EXIT" with
-                    | none => none
-                    | some (x3, u5) => match newLabel u5 "LOOP" with
-                      | none => none
-                      | some (l3, u6) => match newLabel u6 "LOOP_EXIT" with
-                        | none => none
-                        | some (l4, _) => some (q, b, L, I, J, ⟨l1, l2, x1, x2, x3, l3, l4⟩)
+  (getInactive act).bind fun q =>
+  (getInactive (q :: act)).bind fun b =>
+  (getInactive (b :: q :: act)).bind fun L =>
+  (getInactive (L :: b :: q :: act)).bind fun I =>
+  (getInactive (I :: L :: b :: q :: act)).bind fun J =>
+  (newLabel used "LOOP").bind fun p1 =>
+  (newLabel p1.2 "LOOP_EXIT").bind fun p2 =>
+  (newLabel p2.2 "IF_EXIT").bind fun p3 =>
+  (newLabel p3.2 "IF_EXIT").bind fun p4 =>
+  (newLabel p4.2 "IF_EXIT").bind fun p5 =>
+  (newLabel p5.2 "LOOP").bind fun p6 =>
+  (newLabel p6.2 "LOOP_EXIT").bind fun p7 =>
+  some (q, b, L, I, J, ⟨p1.1, p2.1, p3.1, p4.1, p5.1, p6.1, p7.1⟩)
 
 def emitWaitAll (d : Data) (c : Config) : Option (List Cmd) :=
   let head : List Cmd := [ .recvEpr c.remote c.sock (some c.ids) c.res,
@@ -231,56 +218,34 @@ structure SeqAlloc where
   deriving Repr
 
 def allocSeq (act : List Nat) (used : List String) : Option (SeqAlloc × List String) :=
-  match getInactive act with
-  | none => none
-  | some L => match getInactive (L :: act) with
-    | none => none
-    | some q => match getInactive (q :: L :: act) with
-      | none => none
-      | some b =>
-        let act3 := b :: q :: L :: act
-        match getInactive act3 with
-        | none => none
-        | some s => match getInactive (s :: act3) with
-          | none => none
-          | some t => match getInactive (t :: s :: act3) with
-            | none => none
-            | some e => match getInactive (e :: t :: s :: act3) with
-              | none => none
-              | some J =>
-                match newLabel used "LOOP" with
-                | none => none
-                | some (a1, u1) => match newLabel u1 "LOOP_EXIT" with
-                  | none => none
-                  | some (a2, u2) => match newLabel u2 "LOOP" with
-                    | none => none
-                    | some (b1, u3) => match newLabel u3 "LOOP_EXIT" with
-                      | none => none
-                      | some (b2, u4) => some (⟨L, q, b, s, t, e, J, a1, a2, b1, b2⟩, u4)
+  (getInactive act).bind fun L =>
+  (getInactive (L :: act)).bind fun q =>
+  (getInactive (q :: L :: act)).bind fun b =>
+  (getInactive (b :: q :: L :: act)).bind fun s =>
+  (getInactive (s :: b :: q :: L :: act)).bind fun t =>
+  (getInactive (t :: s :: b :: q :: L :: act)).bind fun e =>
+  (getInactive (e :: t :: s :: b :: q :: L :: act)).bind fun J =>
+  (newLabel used "LOOP").bind fun p1 =>
+  (newLabel p1.2 "LOOP_EXIT").bind fun p2 =>
+  (newLabel p2.2 "LOOP").bind fun p3 =>
+  (newLabel p3.2 "LOOP_EXIT").bind fun p4 =>
+  some (⟨L, q, b, s, t, e, J, p1.1, p2.1, p3.1, p4.1⟩, p4.2)
 
 /-- corrections inside the per-pair loop (only when expected): index register and inner loop
 register are the lowest inactive ones again (the wait registers have been released) -/
 def seqCorr (d : Data) (c : Config) (move : Bool) (a : SeqAlloc) (u4 : List String) :
     Option (List Cmd × List String) :=
-  let act3 := a.b :: a.q :: a.L :: c.act
   if !c.expect then some ([], u4)
-  else match getInactive act3 with
-    | none => none
-    | some I => match getInactive (I :: act3) with
-      | none => none
-      | some J => match newLabel u4 "LOOP" with
-        | none => none
-        | some (l1, u5) => match newLabel u5 "LOOP_EXIT" with
-          | none => none
-          | some (l2, u6) => match newLabel u6 "IF_EXIT" with
-            | none => none
-            | some (x1, u7) => match newLabel u7 "IF_EXIT" with
-              | none => none
-              | some (x2, u8) => match newLabel u8 "IF_EXIT" with
-                | none => none
-                | some (x3, u9) =>
-                  some (corrBlockCode (if move then d.tMove else d.tPost) d.ly d.sp
-                          a.q a.b a.L I J l1 l2 x1 x2 x3 c.ids c.res, u9)
+  else
+    (getInactive (a.b :: a.q :: a.L :: c.act)).bind fun I =>
+    (getInactive (I :: a.b :: a.q :: a.L :: c.act)).bind fun J =>
+    (newLabel u4 "LOOP").bind fun p1 =>
+    (newLabel p1.2 "LOOP_EXIT").bind fun p2 =>
+    (newLabel p2.2 "IF_EXIT").bind fun p3 =>
+    (newLabel p3.2 "IF_EXIT").bind fun p4 =>
+    (newLabel p4.2 "IF_EXIT").bind fun p5 =>
+    some (corrBlockCode (if move then d.tMove else d.tPost) d.ly d.sp
+            a.q a.b a.L I J p1.1 p2.1 p3.1 p4.1 p5.1 c.ids c.res, p5.2)
 
 /-- `with loop_reg.if_ne(number - 1)`: move the state to its memory qubit and free qubit 0 -/
 def seqTail (c : Config) (move : Bool) (a : SeqAlloc) (u9 : List String) :
